@@ -592,7 +592,12 @@ def atoms(expr, polarity):
 
 
 def eval3(expr, vd):
-    """Three-valued truthiness of an expression under a flag valuation."""
+    """Three-valued truthiness of an expression under a flag valuation.  Keys of
+    the valuation are names or the source text of any sub-expression."""
+    if not isinstance(expr, (ast.Constant, ast.Name)):
+        k = unparse(expr)
+        if k in vd:
+            return vd[k]
     if isinstance(expr, ast.Constant):
         return T if expr.value else F
     if isinstance(expr, ast.Name):
